@@ -995,11 +995,59 @@ func fromOwnAccumulator(v ssa.Value, depth int) bool {
 		if lk, ok := x.Tuple.(*ssa.Lookup); ok {
 			return fromOwnAccumulator(lk.X, depth+1)
 		}
+	case *ssa.Phi:
+		// every incoming value is either an element of the accumulator or a container
+		// that is stored into it (the "create the inner map on first use" idiom)
+		for _, e := range x.Edges {
+			if _, isMake := e.(*ssa.MakeMap); isMake && storedIntoOwnAccumulator(e) {
+				continue
+			}
+			if !fromOwnAccumulator(e, depth+1) {
+				return false
+			}
+		}
+		return true
+	case *ssa.MakeMap:
+		return storedIntoOwnAccumulator(x)
 	case *ssa.UnOp:
-		if fa, ok := x.X.(*ssa.FieldAddr); ok && x.Op == token.MUL {
+		if x.Op != token.MUL {
+			return false
+		}
+		if fa, ok := x.X.(*ssa.FieldAddr); ok {
 			if fld := fieldOfAddr(fa); fld != nil && fieldOwner[fld] == "ModelUpdates" && fld.Name() == "updates" {
 				return true
 			}
+		}
+		if al, ok := x.X.(*ssa.Alloc); ok {
+			any := false
+			if refs := al.Referrers(); refs != nil {
+				for _, ref := range *refs {
+					if st, ok := ref.(*ssa.Store); ok && st.Addr == al {
+						any = true
+						if _, isMake := st.Val.(*ssa.MakeMap); isMake && storedIntoOwnAccumulator(st.Val) {
+							continue
+						}
+						if !fromOwnAccumulator(st.Val, depth+1) {
+							return false
+						}
+					}
+				}
+			}
+			return any
+		}
+	}
+	return false
+}
+
+// storedIntoOwnAccumulator: the freshly made container is put into ModelUpdates.updates.
+func storedIntoOwnAccumulator(v ssa.Value) bool {
+	refs := v.Referrers()
+	if refs == nil {
+		return false
+	}
+	for _, ref := range *refs {
+		if mu, ok := ref.(*ssa.MapUpdate); ok && mu.Value == v && fromOwnAccumulator(mu.Map, 0) {
+			return true
 		}
 	}
 	return false
@@ -1181,6 +1229,8 @@ func ruleA4(p *Program, r *Reporter) {
 	}
 	sort.Strings(mnames)
 	r.Info("%s: cache mutators = %s", id, strings.Join(mnames, ", "))
+	depthGuard := 0
+	var derivedFromRec func(v ssa.Value, fld *types.Var) bool
 	derivedFrom := func(v ssa.Value, fld *types.Var) bool {
 		// v is (a load of) an element of the map kept in field fld
 		for i := 0; i < 6; i++ {
@@ -1209,12 +1259,30 @@ func ruleA4(p *Program, r *Reporter) {
 				if len(x.Edges) > 0 {
 					v = x.Edges[0]
 				}
+			case *ssa.Call:
+				// an unexported helper of the package that returns an element of the field
+				g := x.Call.StaticCallee()
+				if g == nil || pkgOf(g) != "database/inmemory" || g.Blocks == nil || depthGuard > 3 {
+					return false
+				}
+				depthGuard++
+				for _, b := range g.Blocks {
+					if ret, ok := b.Instrs[len(b.Instrs)-1].(*ssa.Return); ok && !isRecoverBlock(b) {
+						for i := range ret.Results {
+							if derivedFromRec(retValue(ret, i), fld) {
+								return true
+							}
+						}
+					}
+				}
+				return false
 			default:
 				return false
 			}
 		}
 		return false
 	}
+	derivedFromRec = derivedFrom
 	for _, fn := range p.srcFuncs {
 		if pkgOf(fn) != "database/inmemory" {
 			continue
@@ -1248,6 +1316,11 @@ func ruleA4(p *Program, r *Reporter) {
 						}
 					}
 				case *ssa.Return:
+					// only the package's API can leak the committed cache; unexported helpers are
+					// followed by derivedFrom at their call sites
+					if !isExportedEntry(fn) {
+						continue
+					}
 					for _, v := range x.Results {
 						if isNamed(v.Type(), repoMod+"/cache", "TableCache") || isNamed(v.Type(), repoMod+"/cache", "RowCache") {
 							r.Ob(id, name, "returns committed cache", ins.Pos(), false, true, name+" hands out the committed cache object itself")
